@@ -37,6 +37,9 @@ def suite():
 
 meta = dict(property=P, change=int(I), worktree=WT, ran=[])
 sh("git checkout -q -- .", cwd=WT)
+head = sh("git -C /repo rev-parse HEAD")[1].strip()
+sh("git checkout -q --detach %s" % head, cwd=WT)   # evaluate against the current (repaired) tree
+meta["base_commit"] = head
 rc0, o0 = demo_run()
 meta["demo_on_unchanged"] = dict(exit=rc0, tail=o0[-300:])
 rc, o = sh("git apply %s" % diff, cwd=WT)
